@@ -19,6 +19,12 @@ def gen_cases(tier, seed):
                        (0, ".orig x8000\nhalt\n"), (0, "trap x80\ntrap xFF\n"), (0, "halt\n"),
                        (0, "a .blkw #3\nbr a\nbrnzp #-2\n")]:
         cases.append(asmgen.asm_case(feat, [(1, text)])); tags.append("corpus")
+    # every string of length <= 4 over {backslash, n, t, quote, a}: the whole escape table of .stringz
+    import itertools
+    for L in range(0, 5 if tier == "quick" else 6):
+        for combo in itertools.product("\\nt\"a", repeat=L):
+            body = "".join(combo)
+            cases.append(asmgen.asm_case(0, [(1, '.stringz "' + body + '"\nhalt\n')])); tags.append("stringz-exhaustive")
     for i in range(n):
         stack = rnd.random() < 0.3
         items = asmgen.gen_program(rnd, stack=stack)
